@@ -14,6 +14,12 @@ package fs
 //@   modifies fresh
 //@   ensures oid != EmptyObjectSHA256 ==> result == objpath(oid)
 //@   ensures oid == EmptyObjectSHA256 ==> result == devnull
+// Checked although assumed: the path is <directory for this oid>/<this oid>,
+// and the empty object lives nowhere but the null device.
+//@   requires @inv f != nil
+//@   ensures @checked oid == EmptyObjectSHA256 ==> result == devnull
+//@   at call (*fs.Filesystem).localObjectDir:1 assert arg0__ == f && arg1__ == oid && oid != EmptyObjectSHA256
+//@   at call filepath.Join:1 assert len(arg0__) == 2 && arg0__[1] == oid
 //@ func (*Filesystem).ObjectPath
 //@   assumed
 //@   props C13 C02 C01 C09 C04 C05
@@ -21,6 +27,12 @@ package fs
 //@   ensures result1 == nil && oid != EmptyObjectSHA256 ==> result0 == objpath(oid)
 //@   ensures result1 == nil && oid == EmptyObjectSHA256 ==> result0 == devnull
 //@   ensures !err_cleanptr(result1)
+//@   requires @inv f != nil
+//@   ensures @checked result1 == nil && oid == EmptyObjectSHA256 ==> result0 == devnull
+//@   ensures @checked result1 == nil ==> len(oid) >= 4
+//@   at call (*fs.Filesystem).localObjectDir:1 assert arg0__ == f && arg1__ == oid && oid != EmptyObjectSHA256
+//@   at call tools.MkdirAll:1 assert arg0__ == dir
+//@   at call filepath.Join:1 assert len(arg0__) == 2 && arg0__[0] == dir && arg0__[1] == oid
 
 // C09: the temporary directory is <storage>/tmp, computed once and cached.
 //@ func (*Filesystem).TempDir
@@ -39,3 +51,15 @@ package fs
 //@   forbid os.Rename
 //@   at call os.RemoveAll:1 assert arg0__ == path_join(parentDir, fi_name(info))
 //@   at call os.RemoveAll:2 assert arg0__ == path_join(parentDir, fi_name(info))
+
+// The directory of an object is <objects dir>/<first two>/<next two hex digits
+// of its own oid> (the fan-out every reader and writer of the store shares).
+//@ func (*Filesystem).localObjectDir
+//@   props C02 C09
+//@   requires @inv f != nil && len(oid) >= 4
+//@   at call filepath.Join:1 assert @C02 len(arg0__) == 3 && arg0__[1] == oid[0:2] && arg0__[2] == oid[2:4]
+//@ func (*Filesystem).LFSObjectDir
+//@   props C02 C09
+//@   requires @inv f != nil
+//@   at call filepath.Join:1 assert @C02 len(arg0__) == 2 && arg0__[0] == f.LFSStorageDir && arg0__[1] == "objects"
+//@   ensures @C02 old(len(f.lfsobjdir)) != 0 ==> result == old(f.lfsobjdir)
